@@ -36,6 +36,9 @@ func newEngineMon(h *hand) *engineMon {
 	}
 	m := &engineMon{h: h, n: n, turnSince: make([]bool, n), aloneAt: -1}
 	m.bound = n*(int(sum)+4) + 16
+	if sum > (1<<58)/int64(n+1) { // the bound itself would not fit: chips beyond 2^53 are played with far fewer operations than that
+		m.bound = 1 << 62
+	}
 	return m
 }
 
@@ -425,9 +428,17 @@ func (m *engineMon) afterOp(opLine string, pre *pokerface.GameState, err error) 
 	// players alive, every non-folded player with chips is level with the wager to match — however the state came about (an action
 	// accepted after the round had closed lifts the wager and leaves the others behind)
 	if st.CurrentEvent == "RoundClosed" && alive(gs) >= 2 {
+		// "the wager to match" is what the players have actually put in — the largest wager on the table — not only the field the
+		// engine keeps for it (a defect may leave that field behind)
+		toMatch := st.CurrentWager
 		for _, p := range gs.Players {
-			if !p.Fold && p.StackSize > 0 && p.Wager != st.CurrentWager {
-				m.V("C05", "no_premature_close", fmt.Sprintf("after %s the %s round is closed while seat %d (stack %d) has put in %d of the %d to match", opLine, st.Round, p.Idx, p.StackSize, p.Wager, st.CurrentWager))
+			if !p.Fold && p.Wager > toMatch {
+				toMatch = p.Wager
+			}
+		}
+		for _, p := range gs.Players {
+			if !p.Fold && p.StackSize > 0 && p.Wager != toMatch {
+				m.V("C05", "no_premature_close", fmt.Sprintf("after %s the %s round is closed while seat %d (stack %d) has put in %d of the %d to match (recorded wager to match %d)", opLine, st.Round, p.Idx, p.StackSize, p.Wager, toMatch, st.CurrentWager))
 				break
 			}
 		}
